@@ -11,7 +11,7 @@ Import ListNotations.
 Open Scope R_scope.
 
 (* rate 10 rad/s about x, dt = 0.05 s (h = |w| dt/2 = 1/4, the corner of the property's range), identity attitude *)
-Lemma series2_at_witness : exists l, C08_series2_R (1/20) 10 0 0 1 0 0 0 = Val l /\ 27/100 < e l 1.
+Lemma series2_at_witness : exists l, C08_series2_R (1/20) 10 0 0 1 0 0 0 = Val l /\ 2707/10000 < e l 1.
 Proof.
   cbv beta delta [C08_series2_R]. cbv zeta.
   replace (1*1 + 0*0 + 0*0 + 0*0) with 1 by ring. rewrite sqrt_1. destruct (Req_EM_T 0 1) as [Z|_]; [lra|].
@@ -47,7 +47,7 @@ Proof.
     { unfold qnormalize, series_vec, hS, uu, Omega4. unfold_m4. cbv [qadd ak bk Nat.ltb Nat.leb]. unfold_rot. interval. }
     lra.
   - cbv [e List.nth] in B |- *.
-    match goal with |- Rabs (?a - ?b) > _ => assert (Cb : b < 25/100) by interval end.
-    rewrite Rabs_right; lra.
+    match goal with |- Rabs (?a - ?b) > _ => assert (Cb : b < 2475/10000) by interval end.
+    simpl pow. rewrite Rabs_right; lra.
 Qed.
 Print Assumptions C08_series_order2_refuted.
